@@ -37,8 +37,22 @@ def make_world(ctx, rng, n):
     root = os.path.join(ctx.tmp, 'w%d' % n, 'proj')
     targets = {}
     for i in range(rng.randrange(1, 4)):
-        sub = rng.choice(['', 'lib/', 'a/b/'])
+        sub = rng.choice(['', 'lib/', 'a/b/', 'x.p8/', 'v1.lua/'])
         name = '%sinc%d.lua' % (sub, i)
+        if rng.random() < 0.35:
+            # names with an extension-like piece before the real extension (game.p8.lua next to game.p8, vec.lua.lua, a.p8.png.lua): the
+            # target is the WHOLE name; files named like the shorter prefix stand next to them and must not be taken instead
+            name = '%s%s%d%s.lua' % (sub, rng.choice(['game', 'vec']), i, rng.choice(['.p8', '.lua', '.p8.png', '.lua.p8']))
+            for shorter in {name[:-4], name[:name.rindex('.', 0, len(name) - 4)] if '.' in name[:-4] else name[:-4]}:
+                if shorter.endswith(('.lua', '.p8')) and not os.path.exists(os.path.join(root, shorter)):
+                    if shorter.endswith('.lua'):
+                        I.write(os.path.join(root, shorter), b'decoy_shorter_name=1\n')
+                    else:
+                        try:
+                            os.makedirs(os.path.dirname(os.path.join(root, shorter)), exist_ok=True)
+                            gfile.to_file(U.make_game(rng=rng, code=b'decoy_shorter_cart=1\n', version=8), os.path.join(root, shorter))
+                        except Exception:
+                            pass
         body = b''.join(b'i%d_%d=%d\n' % (i, j, j) for j in range(rng.randrange(0, 4)))
         if rng.random() < 0.4:
             # bytes some text APIs take for line ends but a Lua file does not: a lone CR, FF, VT inside a long string / a comment
